@@ -76,6 +76,23 @@ Theorem C13_no_deadlock_after_dispatch :
 Proof. exact no_deadlock_after_dispatch. Qed.
 Print Assumptions C13_no_deadlock_after_dispatch.
 
+(* non-vacuity of the hypotheses of the two theorems above: DM op, barrier (id 3), compute op; the pass does
+   something, the barrier events are KOther, and core 1 still executes the barrier *)
+Example C13_unguarded_nonvacuous :
+  let f := [[Leaf 1 KOther false; Leaf 2 KDM false; Leaf 3 KOther false; Leaf 4 KCompute true; Leaf 5 KOther false]] in
+  let isbar := fun i => i =? 3 in
+  let o := mkOracle (fun _ _ => 2%nat) (fun _ _ => true) in
+  Forall (fun b => terminated b = true) f /\ Forall (fun b => guard_freel b = true) f /\
+  (forall e, In e (trace o f [0%nat]) -> bar_ev isbar e = true -> ev_kind e = KOther) /\
+  d_blocks (dispatch 2 f) <> f /\
+  filter (bar_ev isbar) (core_trace 1 o (d_blocks (dispatch 2 f)) [0%nat]) = [(3, KOther, [0%nat])].
+Proof.
+  cbv zeta. split; [repeat constructor|]. split; [repeat constructor|]. split; [|split; [vm_compute; discriminate | reflexivity]].
+  intros e He Hb. vm_compute in He.
+  repeat (destruct He as [<-|He]; [vm_compute in Hb; try discriminate; reflexivity|]). destruct He.
+Qed.
+Print Assumptions C13_unguarded_nonvacuous.
+
 (* a barrier that only one core executes does deadlock (why "unguarded" matters) *)
 Theorem C13_guarded_barrier_deadlocks :
   let ss := [[None]; []] in
